@@ -151,6 +151,11 @@ func lemma_deps_rdeps_inverse(g *DirectedTargetGraph, n, d model.BuildNode) ([]m
 //@   allocates w
 //@   ensures [fields] w != nil && w.graph == graph && w.completions != nil && w.nodeInfoMap != nil && w.failFast == failFast
 
+// C04: the "all routines done" channel is closed by the one goroutine that waits for them, and it is open when that
+// goroutine is created
+//@ func (*Walker).Walk$1() ()
+//@   captured_requires [done_is_open] !chanclosed(done)
+
 //@ func (*Walker).Walk(w, ctx) (m, err)
 //@   note exclusive w
 //@   requires [graph] nodesWF(w.graph) && absEdges(w.graph) && absOutEdges(w.graph) && endpointsAreNodes(w.graph) && w.completions != nil && w.nodeInfoMap != nil
